@@ -156,26 +156,63 @@ def rule_mux(ctx: Ctx) -> None:
                   "event/handlers pairing changed")
 
 
-def rule_staging(ctx: Ctx) -> None:
+def stage_analysis(ctx: Ctx):
+    """(function, ordered list of stage iterables, list of handler invocations with the primitive that runs them)."""
     fn = ctx.func(f"{D}.EventDispatcher._dispatch_event")
-    gathers = [c for c in A.func_calls(fn) if (A.call_name(c) or "") == "asyncio.gather"]
-    lists = []
-    for c in gathers:
-        it = None
-        for a in c.args:
-            if isinstance(a, ast.Starred) and isinstance(a.value, (ast.ListComp, ast.GeneratorExp)):
-                it = ast.unparse(a.value.generators[0].iter)
-                elt = a.value.elt
-                okc = isinstance(elt, ast.Call) and (A.call_name(elt) or "") == "self._call_event_handler" and len(elt.args) == 2 \
-                    and ast.unparse(elt.args[0]).endswith(".event") and A.dotted(elt.args[1]) == a.value.generators[0].target.id
-                ctx.check(okc, "C12.4", f"handlers of stage '{it}' run through _call_event_handler with the event", fn, c, "ok",
-                          "a stage calls handlers directly or with a different event")
-        lists.append(it)
-        ctx.check(isinstance(c.parent, ast.Await), "C12.4", f"stage '{it}' completes before the next one starts", fn, c, "awaited",  # type: ignore
-                  "a stage is not awaited: stages overlap")
-    ctx.check(lists == ["self._sniffers_pre", "event_dispatch.handlers", "self._sniffers_post"], "C12.4",
-              "stages run in the order front-running catch-alls, source handlers, other catch-alls", fn, fn.node, str(lists),
-              f"stage order is {lists}")
+    invocations = []   # (call node, primitive, stage iterable text, awaited?)
+    for c in A.func_calls(fn, shallow=False):
+        if (A.call_name(c) or "") != "self._call_event_handler":
+            continue
+        prim, stage, awaited = "direct", None, False
+        for a in A.ancestors(c):
+            if isinstance(a, (ast.ListComp, ast.GeneratorExp)) and stage is None:
+                stage = ast.unparse(a.generators[0].iter)
+            if isinstance(a, ast.Call) and (A.call_name(a) or "").split(".")[-1] == "gather":
+                prim = "gather"
+                awaited = isinstance(a.parent, ast.Await)  # type: ignore[attr-defined]
+                break
+            if isinstance(a, ast.Await) and prim == "direct":
+                awaited = True
+            if isinstance(a, ast.stmt):
+                break
+        invocations.append((c, prim, stage, awaited))
+    # stage order: explicit sequence of statements, or a loop over a literal tuple/list of the handler lists
+    order: List[str] = []
+    loopvars = {}
+    for n in C.walk_shallow(fn.node):
+        if isinstance(n, ast.For) and isinstance(n.iter, (ast.Tuple, ast.List)) and isinstance(n.target, ast.Name):
+            loopvars[n.target.id] = [ast.unparse(e) for e in n.iter.elts]
+    seq = sorted([(c.lineno, c.col_offset, stage) for c, prim, stage, aw in invocations])
+    for _, _, stage in seq:
+        if stage in loopvars:
+            for x in loopvars[stage]:
+                if x not in order:
+                    order.append(x)
+        elif stage is not None and stage not in order:
+            order.append(stage)
+    return fn, order, invocations
+
+
+def rule_staging(ctx: Ctx, rule: str = "C12.4") -> None:
+    fn, lists, invocations = stage_analysis(ctx)
+    ctx.floor(rule, "handler invocations in _dispatch_event", len(invocations), 1)
+    for c, prim, stage, awaited in invocations:
+        okc = len(c.args) == 2 and ast.unparse(c.args[0]).endswith(".event")
+        ctx.check(okc, rule, f"handlers of stage '{stage}' are called with the event", fn, c, "ok", "a stage calls handlers with a different event")
+        ctx.check(prim == "gather" and awaited, rule, f"stage '{stage}': every handler starts through the same awaited gather", fn, c,
+                  "awaited asyncio.gather(*[... for handler in stage])",
+                  f"handler invoked via '{prim}' (awaited={awaited}): handlers of some events start synchronously while others start as gathered "
+                  "tasks, so the relative order of handlers of same-time events depends on how the pool schedules them (results depend on "
+                  "max_concurrent), or a stage is not awaited and stages overlap")
+    ctx.check(lists == ["self._sniffers_pre", "event_dispatch.handlers", "self._sniffers_post"], rule,
+              "stages run in the order front-running catch-alls, source handlers, other catch-alls, each completed before the next", fn, fn.node,
+              str(lists), f"stage order is {lists}")
+    n_gather = len({id(next(a for a in A.ancestors(c) if isinstance(a, ast.Call) and (A.call_name(a) or "").split(".")[-1] == "gather"))
+                    for c, prim, st, aw in invocations if prim == "gather"})
+    in_loop = any(isinstance(a, ast.For) for c, prim, st, aw in invocations for a in A.ancestors(c) if not isinstance(a, (ast.ListComp,)))
+    ctx.check(n_gather == 3 or (n_gather >= 1 and in_loop), rule, "each stage has its own gather (a stage completes before the next starts)", fn, fn.node,
+              f"{n_gather} gather(s){' in a loop over the stages' if in_loop else ''}", f"{n_gather} gather(s) for three stages: handlers of different "
+              "stages run interleaved once a front-running handler suspends")
     sub = ctx.func(f"{D}.EventDispatcher.subscribe")
     src = ast.unparse(sub.node)
     ctx.check("if event_handler not in handlers:" in src and "handlers.append(event_handler)" in src and "self._event_handlers.setdefault(source, [])" in src
